@@ -80,6 +80,17 @@ pub fn host_grammar(max: usize) -> Grammar {
         let looped = E::Cond(vec![(CondKind::IfTrue, cond, body)], Some(b(step)));
         E::Bin(BinOp::Apply, b(E::Nested(0, b(looped))), b(E::Int(0)))
     }));
+    // a loop whose reapply sits in an else-chain nested inside a conditional branch, with an identifier looked up on
+    // every pass before it: { [a]($ < 2 ?> ($ < 1 ?> ^~ $ + 1 |> ^~ $ + 2) |> BODY) } <~ 0
+    g.add(X, 4, vec![X], Box::new(|mut v| {
+        let body = v.remove(0);
+        let lt = |k: i64| E::Bin(BinOp::Lt, b(E::Val), b(E::Int(k)));
+        let again = |k: i64| E::Pre(PreOp::Reapply, b(E::Bin(BinOp::Add, b(E::Val), b(E::Int(k)))));
+        let inner = E::Cond(vec![(CondKind::IfTrue, lt(1), again(1))], Some(b(again(2))));
+        let outer = E::Cond(vec![(CondKind::IfTrue, lt(2), E::Group(b(inner)))], Some(b(body)));
+        let seq = E::SideBefore(b(E::Ident("a".into())), b(E::Group(b(outer))));
+        E::Bin(BinOp::Apply, b(E::Nested(0, b(seq))), b(E::Int(0)))
+    }));
     g.alias(B, X);
     g.add(B, 1, vec![X, X], Box::new(|v| {
         let (l, r) = take2(v);
@@ -201,7 +212,7 @@ impl Property for C17 {
     }
     fn meta(&self, tier: Tier) -> Meta {
         Meta {
-            rule: format!("every program of a grammar whose atoms are the identifiers a, b, c and one literal, with one operator per class, lists, property access, conditionals, side effects, `;`, nested expressions with <~ and ~~, a bounded reapply loop, and the six apply forms of a name f (f <~ x, x ~> f, f~~, f` x, x `f, x `f` y), up to {} AST nodes ({} programs) x inputs {{unit, (:a = 10), (:a = 10, :b = 20)}} x 4 scripted recording hosts (resolve nothing / a / a,b,c; f resolves to external 7; apply accepts or declines) x both implementations (external apply judged on BasicGarnishData, the implementation exposing the hook). Oracle: the recorded sequence of (callback, argument) and the final value equal the reference evaluator's. Non-trivial = program with an operator; distinct by enumeration index.", tier.pick(5, 6), space(tier).total),
+            rule: format!("every program of a grammar whose atoms are the identifiers a, b, c and one literal, with one operator per class, lists, property access, conditionals, side effects, `;`, nested expressions with <~ and ~~, a bounded reapply loop, a loop whose reapply sits in an else-chain nested in a conditional branch behind an identifier, and the six apply forms of a name f (f <~ x, x ~> f, f~~, f` x, x `f, x `f` y), up to {} AST nodes ({} programs) x inputs {{unit, (:a = 10), (:a = 10, :b = 20)}} x 4 scripted recording hosts (resolve nothing / a / a,b,c; f resolves to external 7; apply accepts or declines) x both implementations (external apply judged on BasicGarnishData, the implementation exposing the hook). Oracle: the recorded sequence of (callback, argument) and the final value equal the reference evaluator's. Non-trivial = program with an operator; distinct by enumeration index.", tier.pick(5, 6), space(tier).total),
             assumptions: vec![
                 "when the host accepts an external apply it returns the pair (external number = argument), so argument identity is visible in the final value".into(),
                 "SimpleGarnishData has no apply hook: there the external apply is expected to yield unit and only resolve calls are compared".into(),
